@@ -96,8 +96,23 @@ def anchors(log, sc):
     return out
 
 
+def after_dirty_connection(sc):
+    """The same scenario as the second connection of an object whose first connection ended inside a code point
+    (in a text fragment and in a close reason): the verdict must not depend on what an earlier connection left behind."""
+    import copy
+    sc2 = copy.deepcopy(sc)
+    dirty = {"stream": [{"t": "http", "v": "ok"}, {"t": "f", "op": 1, "fin": 0, "pl": [226, 130]}, {"t": "f", "op": 8, "fin": 1, "pl": [3, 232, 240, 159]}]}
+    sc2['conns'] = [dirty] + sc2['conns']
+    sc2['nconnect'] = 2
+    sc2['judge_last_connection'] = True
+    return sc2
+
+
 def variants(sc, b):
-    return [('base', sc), ('bytewise', sessprop.reseg(sc, 1)), ('randcuts', sessprop.reseg(sc, 'rand'))]
+    out = [('base', sc), ('bytewise', sessprop.reseg(sc, 1)), ('randcuts', sessprop.reseg(sc, 'rand'))]
+    if len(sc['conns'][0].get('stream', [])) <= 3:
+        out.append(('after-dirty-connection', after_dirty_connection(sc)))
+    return out
 
 
 def run(tier, seed):
@@ -125,7 +140,7 @@ def run(tier, seed):
              'text, split into fragments at every subset of byte boundaries (incl. an empty first fragment), with and without a Ping '
              'between fragments, and as close reason, x reads per frame / per byte / random; (c) all frame sequences of the session model '
              'over a text-fragment alphabet; non-trivial = distinct (frame sequence, number of reads) with non-ASCII text bytes',
-        nontrivial=nontrivial, anchors=anchors, variants=variants, extra=extra, sample_keys=('ev',))
+        nontrivial=nontrivial, anchors=anchors, variants=variants, extra=extra, sample_keys=('ev',), keep_reads=True)
     need = {'rejected_text', 'non_ascii_text_delivered', 'ping_between_fragments', 'empty_first_fragment', 'close_reason'}
     missing = sorted(need - seen)
     return r.finish(vacuous=('never exercised: %s' % missing) if missing else None)
@@ -139,4 +154,4 @@ def replay(path, seed):
         v = V()
         print('validator says', v.validate(bytes(case['row']['bytes'])), 'spec automaton says', case['row']['spec'])
         return 1
-    return sessprop.standard_replay('C05', 'Mon_C05', KINDS, path)
+    return sessprop.standard_replay('C05', 'Mon_C05', KINDS, path, keep_reads=True)
